@@ -88,6 +88,12 @@ extern "C" void harness_main() {
   const auto s2 = m.Emplace(CstType::structured, "X1\xC3\x97\xE2\x84\xAC(X1)");
   const auto d1 = m.Emplace(CstType::term, "red(S1)");
   const auto a1 = m.Emplace(CstType::axiom, "card(D1)=1");
+  // calculations that end without a value: debool of a set that is not a singleton, a term over an element-typed
+  // structure that has no data, and an axiom depending on it
+  const auto d2 = m.Emplace(CstType::term, "debool(X1)");
+  const auto s3 = m.Emplace(CstType::structured, "X1");
+  const auto d3 = m.Emplace(CstType::term, "{S3}");
+  const auto a2 = m.Emplace(CstType::axiom, "D3=D3");
   // base interpretation: contiguous keys 1..n or a key set with a gap (reachable through SetBasicText)
   const int keys = pick(4, "keys");
   bool gap = false;
@@ -110,11 +116,12 @@ extern "C" void harness_main() {
   const nlohmann::ordered_json doc = m;
   RSModel n;
   doc.get_to(n);
-  for (const auto u : {x1, s1, s2, d1, a1}) {
+  for (const auto u : {x1, s1, s2, d1, a1, d2, s3, d3, a2}) {
     sym_assert(n.Contains(u), "constituent-present");
     if (!n.Contains(u)) continue;
     sym_assert(recordString(m.Core(), u) == recordString(n.Core(), u), "record-identical");
     sym_assert(m.Calculations().WasCalculated(u) == n.Calculations().WasCalculated(u), "calculated-flag");
+    sym_assert(m.Calculations()(u) == n.Calculations()(u), "evaluation-status");
     const auto va = m.Values().SDataFor(u), vb = n.Values().SDataFor(u);
     const char* dataTag = gap ? "data-identical[base-keys-with-gap]" : "data-identical";
     sym_assert(va.has_value() == vb.has_value() && (!va.has_value() || *va == *vb), dataTag);
